@@ -171,7 +171,15 @@ def families():
 
     def dec_exact(ts, y0, a, c):
         return torch.stack([y0 * torch.exp(-a * (t * t - ts[0] * ts[0]) / 2) + 0 * c.sum() for t in ts])
+    def stiff_f(t, y, lam, b):
+        return -lam * y + b
+
+    def stiff_exact(ts, y0, lam, b):
+        return torch.stack([(y0 - b / lam) * torch.exp(-lam * (t - ts[0])) + b / lam for t in ts])
     return {
+        # fast decay over a long interval: integrating y backwards from the end would amplify errors by e^{lam T}; the adjoint pass
+        # must restart from the STORED forward values at every requested time (seeded defect C08/6)
+        "fast decay": (stiff_f, stiff_exact, lambda: (torch.tensor([1.0, -0.5], dtype=DT), torch.tensor(45.0, dtype=DT), torch.tensor([0.3, 0.8], dtype=DT)), None),
         "linear+forcing": (lin_f, lin_exact, lambda: (torch.tensor([1.0, -0.5], dtype=DT), torch.tensor(0.8, dtype=DT), torch.tensor([0.3, 0.1], dtype=DT)), None),
         "logistic": (logi_f, logi_exact, lambda: (torch.tensor([0.2, 0.6], dtype=DT), torch.tensor([0.9, 1.4], dtype=DT), torch.tensor(1.5, dtype=DT)), None),
         # c does not enter the dynamics: it must get no gradient
@@ -203,6 +211,13 @@ def oracle(ctx):
             npts, tol1, tol2 = 4, 2e-6, 4e-5
         if bck == "rk4" and method in ("rk23", "rk45"):
             npts, tol1, tol2 = 25, 2e-5, 4e-4
+        if name == "fast decay":
+            # stiff for the fixed-step schemes and unstable backwards in time: adaptive methods, increasing grid, many
+            # requested times (each segment restarts from the stored forward value)
+            method = rng.choice(["rk45", "rk23"])
+            bck = rng.choice([None, "rk45"])
+            direction = 1
+            npts, tol1, tol2 = 25, 1e-4, 2e-3
         lo, hi = 0.2, 1.1
         grid = torch.linspace(lo, hi, npts, dtype=DT)
         if npts == 4:
